@@ -662,24 +662,29 @@ Section Accepted2.
     | x :: r => match x, all_some r with Some t, Some ts => Some (t :: ts) | _, _ => None end
     end.
 
-  Lemma mapM_tuple E sp ret0 f ctx : forall es obs s tys s',
+  Lemma foldM_tuple E sp f ctx : forall es obs acc tsacc s r s',
     wf s -> env_ok2 E s -> Forall2 (fun e ob => sound_expr kinds g (env_ok2 E) e ob) es obs ->
-    mapM (fun v => '(iret, t) <- r_expr (afix f) v ctx ;; unify_option G sp (Some ret0) iret ;;; ret t) es s = Ok (tys, s') ->
-    wf s' /\ ext s s' /\ exists ts, all_some obs = Some ts /\ Forall2 (fun y b => head s' y = Some (bty_head b)) tys ts.
+    Forall2 (fun y b => head s y = Some (bty_head b)) (snd acc) tsacc ->
+    foldM (fun (acc : option tyid * list tyid) (v : expr) =>
+             '(iret, t) <- r_expr (afix f) v ctx ;; r' <- unify_option G sp (fst acc) iret ;; ret (r', snd acc ++ [t])) es acc s
+    = Ok (r, s') ->
+    wf s' /\ ext s s' /\ exists ts, all_some obs = Some ts /\ Forall2 (fun y b => head s' y = Some (bty_head b)) (snd r) (tsacc ++ ts).
   Proof.
-    induction es as [|e es IH]; intros obs s tys s' W HI Hs H; inversion Hs as [|e0 ob es0 obs0 He Hes]; subst; cbn [mapM] in H.
-    - injection H as <- <-. split; [assumption|]. split; [apply ext_refl|]. exists []. split; [reflexivity|constructor].
-    - apply bind_inv in H as (y & s1 & H1 & H).
+    induction es as [|e es IH]; intros obs acc tsacc s r s' W HI Hs Ha H; inversion Hs as [|e0 ob es0 obs0 He Hes]; subst; cbn [foldM] in H.
+    - injection H as <- <-. split; [assumption|]. split; [apply ext_refl|]. exists []. split; [reflexivity|]. rewrite app_nil_r. exact Ha.
+    - apply bind_inv in H as (acc1 & s1 & H1 & H).
       apply bind_inv in H1 as ([iret t] & s2 & Hr & H1).
       destruct (He _ _ _ _ _ W HI Hr) as (W2 & E2 & (b & -> & Hb)). cbn [snd] in Hb.
       apply bind_inv in H1 as (u & s3 & Hu & H1). injection H1 as <- <-.
-      assert (Pu : pres (unify_option G sp (Some ret0) iret)) by prs. destruct (Pu _ _ _ W2 Hu) as [W3 E3].
-      apply bind_inv in H as (ys & s4 & Hm & H). injection H as <- <-.
+      assert (Pu : pres (unify_option G sp (fst acc) iret)) by prs. destruct (Pu _ _ _ W2 Hu) as [W3 E3].
       assert (E03 : ext s s3) by (eapply ext_trans; eassumption).
-      destruct (IH _ _ _ _ W3 (env_ok2_ext _ _ _ W E03 HI) Hes Hm) as (W4 & E4 & (ts & Hts & Hys)).
+      assert (Ha1 : Forall2 (fun y b0 => head s3 y = Some (bty_head b0)) (snd (u, snd acc ++ [t])) (tsacc ++ [b])).
+      { cbn [snd]. apply Forall2_app.
+        - eapply Forall2_imp; [|exact Ha]. intros c b0 Hc. exact (head_keep _ _ _ _ E03 Hc (rigid_bty b0)).
+        - constructor; [|constructor]. exact (head_keep _ _ _ _ E3 Hb (rigid_bty b)). }
+      destruct (IH _ _ _ _ _ _ W3 (env_ok2_ext _ _ _ W E03 HI) Hes Ha1 H) as (W4 & E4 & (ts & Hts & Hys)).
       split; [assumption|]. split; [eapply ext_trans; eassumption|].
-      exists (b :: ts). cbn [all_some]. rewrite Hts. split; [reflexivity|]. constructor; [|assumption].
-      eapply head_keep; [exact E4| |apply rigid_bty]. exact (head_keep _ _ _ _ E3 Hb (rigid_bty b)).
+      exists (b :: ts). cbn [all_some]. rewrite Hts. split; [reflexivity|]. rewrite <- app_assoc in Hys. exact Hys.
   Qed.
 
   Lemma sound_tuple E es obs sp :
@@ -688,15 +693,15 @@ Section Accepted2.
   Proof.
     intros Hs f ctx s r s' W HI H. destruct f as [|f]; [discriminate|]. apply expr_inv in H. unfold expr_body in H.
     apply bind_inv in H as ([er ex] & s1 & H1 & H). cbv beta iota in H1.
-    apply bind_inv in H1 as (ret0 & s2 & Hp & H1). destruct (push_spec _ _ _ _ W Hp) as (W2 & E2 & _).
-    apply bind_inv in H1 as (tys & s3 & Hm & H1).
-    destruct (mapM_tuple E sp ret0 f ctx _ _ _ _ _ W2 (env_ok2_ext _ _ _ W E2 HI) Hs Hm) as (W3 & E3 & (ts & Hts & Hys)).
+    apply bind_inv in H1 as ([ret0 tys] & s3 & Hm & H1).
+    destruct (foldM_tuple E sp f ctx _ _ (None, []) [] _ _ _ W HI Hs (Forall2_nil _) Hm) as (W3 & E3 & (ts & Hts & Hys)).
+    cbn [snd app] in Hys.
     apply bind_inv in H1 as (t & s4 & Hp4 & H1). injection H1 as <- <- <-.
     destruct (push_spec _ _ _ _ W3 Hp4) as (W4 & E4 & Ht).
     assert (HT : has_ty s4 t (Tup ts)).
     { exists tys. split; [exact Ht|]. eapply Forall2_imp; [|exact Hys]. intros c b Hc. exact (head_keep _ _ _ _ E4 Hc (rigid_bty b)). }
     destruct (tail_noncopy _ _ _ _ _ _ HT H) as [-> ->].
-    split; [assumption|]. split; [eapply ext_trans; [exact E2|]; eapply ext_trans; eassumption|].
+    split; [assumption|]. split; [eapply ext_trans; eassumption|].
     exists (Tup ts). rewrite Hts. auto.
   Qed.
 
